@@ -243,6 +243,8 @@ def run(case):
 
 
 def known_match(part, case, v):
+    if part == 'artifact-resolve':
+        return known_match_artres(v)
     return None
 
 
@@ -296,6 +298,40 @@ def run_rollover(case):
     return 'rollover|%s' % ('warm' if case['warm'] else 'cold'), True
 
 
+ARTRES = ('<samlp:ArtifactResolve xmlns:samlp="urn:oasis:names:tc:SAML:2.0:protocol" xmlns:saml="urn:oasis:names:tc:SAML:2.0:assertion" ID="id-ar-1" Version="%s" IssueInstant="%s"%s>'
+          '<saml:Issuer>%s</saml:Issuer><samlp:Artifact>AAQAAMh48/1oXIM+sDo7Dh2qMp1HM4IF5DaRNmDj6RdUmllwn9jJHyEgIi8=</samlp:Artifact></samlp:ArtifactResolve>')
+
+
+def artres_cases():
+    return [{'version': v, 'offset': o, 'dest': d} for v in ('2.0', '1.1', '9') for o in (0, -10 * 86400, 400 * 86400) for d in (None, 'own', 'foreign')]
+
+
+def run_artres(case):
+    """ArtifactResolve is a request like the others (sent over SOAP to the artifact resolution service)"""
+    idp, sp = receivers(False)
+    clock.set_now(NOW)
+    dest = {None: '', 'own': ' Destination="https://idp.verif.example/ars"', 'foreign': ' Destination="https://evil.example.net/ars"'}[case['dest']]
+    xml = ARTRES % (case['version'], build.ts(NOW + case['offset']), dest, SPE)
+    try:
+        req = idp.parse_artifact_resolve(build.soap_envelope(xml))
+    except Exception:
+        req = None
+    bad = []
+    if case['version'] != '2.0':
+        bad.append('Version %r' % case['version'])
+    if case['offset']:
+        bad.append('IssueInstant %+d days from now' % (case['offset'] // 86400))
+    if case['dest'] == 'foreign':
+        bad.append('foreign Destination')
+    if req is not None and bad:
+        raise Violation('artifact-resolve-not-validated', 'an ArtifactResolve with %s was handed to the application' % ', '.join(bad), detail={'entry': 'parse_artifact_resolve'})
+    return 'artres|%s|%s' % ('bad' if bad else 'valid', 'handed' if req is not None else 'refused'), bool(bad)
+
+
+def known_match_artres(v):
+    return 'C10-artifact-resolve-not-validated' if v.bucket == 'artifact-resolve-not-validated' else None
+
+
 def xsw_catalogue(full):
     """every signature-wrapping construction of harness.xmlmut.xsw over a correctly signed request of every type and binding"""
     out = []
@@ -317,6 +353,7 @@ def xsw_catalogue(full):
 
 def parts(tier):
     quick = tier != 'thorough'
-    return [Part('key-rollover', run_rollover, cases=rollover_cases, exhaustive=True),
+    return [Part('artifact-resolve', run_artres, cases=artres_cases, exhaustive=True),
+            Part('key-rollover', run_rollover, cases=rollover_cases, exhaustive=True),
             Part('xsw-catalogue', run, cases=lambda: xsw_catalogue(not quick), exhaustive=True),
             Part('requests', run, strategy=case_strategy, examples=4000 if quick else 100000)]
